@@ -127,6 +127,10 @@ theorem i32_intBytes (i : Int) (h : inI32 i) (rest : Bytes) (hrest : noDigitHead
     i32 (intBytes i ++ rest) = .ok i rest :=
   signedInt_intBytes _ _ (by omega) (by omega) i h.1 h.2 rest hrest
 
+theorem i64_intBytes (i : Int) (h : -9223372036854775808 ≤ i ∧ i ≤ 9223372036854775807)
+    (rest : Bytes) (hrest : noDigitHead rest) : i64 (intBytes i ++ rest) = .ok i rest :=
+  signedInt_intBytes _ _ (by omega) (by omega) i h.1 h.2 rest hrest
+
 /-! ### `raw_string` and `string` on text without escapes -/
 
 /-- scanning plain bytes: no backslash, no stop byte, up to a stop byte or the end of input -/
@@ -229,14 +233,11 @@ def isError {α} : PR α → Bool
   | _ => false
 
 /-- A plain (unquoted) key name that `Display` + `parse_key_paths` give back unchanged:
-non-empty; no `raw_string` delimiter and no backslash; does not start with tab/CR/LF
-(`multispace0` would eat it; space is already a delimiter); valid UTF-8; and nom's `i32` fails
-on it (otherwise `key_path` reads an `Index`, e.g. for `12` or `7up`; all-digit names that
-overflow `i32`, like `99999999999`, are fine). -/
+non-empty; no `raw_string` delimiter (which now includes tab/LF/CR and `&`) and no backslash;
+valid UTF-8; and nom's `i32` fails on it (otherwise `key_path` reads an `Index`, e.g. for `12`
+or `7up`; all-digit names that overflow `i32`, like `99999999999`, are fine). -/
 def goodName (s : Bytes) : Bool :=
-  match s with
-  | [] => false
-  | b :: _ => !isSpace b && s.all plainNameByte && validUtf8 s && isError (i32 s)
+  !s.isEmpty && s.all plainNameByte && validUtf8 s && isError (i32 s)
 
 /-- A quoted key name: no backslash, no double quote, valid UTF-8 (may be empty). -/
 def goodQuoted (s : Bytes) : Bool := s.all (fun b => b != 92 && b != 34) && validUtf8 s
@@ -314,6 +315,15 @@ theorem intBytes_head (i : Int) : ∃ b t, intBytes i = b :: t ∧ isSpace b = f
     obtain ⟨_, _, _, _, p5, p6, p7, p8, p9⟩ := digit_props ⟨d, hd⟩
     exact ⟨_, t, ht, p5, p6, p7, p8, p9⟩
 
+theorem plainNameByte_not_space (b : UInt8) (h : plainNameByte b = true) : isSpace b = false := by
+  have h' : ¬ (b ∈ rawDelims) ∧ b ≠ 92 := by simpa [plainNameByte, isRawDelim] using h
+  cases hs : isSpace b with
+  | false => rfl
+  | true =>
+    exfalso
+    have : b = 32 ∨ b = 9 ∨ b = 13 ∨ b = 10 := by simpa [isSpace, or_assoc] using hs
+    rcases this with rfl | rfl | rfl | rfl <;> simp [rawDelims] at h'
+
 theorem plainNameByte_props (b : UInt8) (h : plainNameByte b = true) :
     b ≠ 45 ∧ b ≠ 43 ∧ b ≠ 34 ∧ b ≠ 42 := by
   have h' : ¬ (b ∈ rawDelims) ∧ b ≠ 92 := by simpa [plainNameByte, isRawDelim] using h
@@ -340,10 +350,10 @@ theorem keyPath_print (k : KeyPath) (hk : goodKP k = true) (rest : Bytes) (hr : 
     cases s with
     | nil => simp [goodKP, goodName] at hk
     | cons b t =>
-      have hg : isSpace b = false ∧ (b :: t).all plainNameByte = true ∧ validUtf8 (b :: t) = true ∧
+      have hg : (b :: t).all plainNameByte = true ∧ validUtf8 (b :: t) = true ∧
           isError (i32 (b :: t)) = true := by
         simpa [goodKP, goodName, and_assoc] using hk
-      obtain ⟨_, hall, hu, herr⟩ := hg
+      obtain ⟨hall, hu, herr⟩ := hg
       have hb : plainNameByte b = true := (List.all_eq_true.mp hall) b (by simp)
       obtain ⟨p1, p2, p3, _⟩ := plainNameByte_props b hb
       have h1 := i32_error_append b t rest p1 p2 herr
@@ -366,10 +376,10 @@ theorem printKeyPath_head (k : KeyPath) (hk : goodKP k = true) :
     | nil => simp [goodKP, goodName] at hk
     | cons b t =>
       have : isSpace b = false := by
-        have hg : isSpace b = false ∧ (b :: t).all plainNameByte = true ∧
+        have hg : (b :: t).all plainNameByte = true ∧
             validUtf8 (b :: t) = true ∧ isError (i32 (b :: t)) = true := by
           simpa [goodKP, goodName, and_assoc] using hk
-        exact hg.1
+        exact plainNameByte_not_space b ((List.all_eq_true.mp hg.1) b (by simp))
       exact ⟨b, t, rfl, this⟩
 
 /-- `delimited(multispace0, key_path, multispace0)` reads back one printed good element -/
@@ -476,12 +486,12 @@ example : [KeyPath.name [97], .quoted [98, 32, 99], .index (-3),
 
 /-! ### JSONPath step sequences -/
 
-/-- An array index that `Display` + `parse_json_path` give back unchanged.
-`LastIndex(i32::MIN)` is excluded: it prints as `last-2147483648`, and `2147483648` overflows
-nom's `i32`, so the printed path is rejected (see `lastMin_not_roundtrip`). -/
+/-- An array index that `Display` + `parse_json_path` give back unchanged: any `Index(n)` /
+`LastIndex(n)` with `n` an `i32`.  (`LastIndex(i32::MIN)` prints as `last-2147483648`; since the
+fix of `index` the offset after `last -` is read as an `i64`, so it parses back.) -/
 def goodIndex : Index → Bool
   | .index n => decide (inI32 n)
-  | .last n => decide (-2147483647 ≤ n ∧ n ≤ 2147483647)
+  | .last n => decide (inI32 n)
 
 def goodArrayIndex : ArrayIndex → Bool
   | .index i => goodIndex i
@@ -528,7 +538,9 @@ theorem index_print (x : Index) (hx : goodIndex x = true) (r : Bytes) (hr : idxE
     have hn : inI32 n := by simpa [goodIndex] using hx
     simp [index, printIndex, alt, map, i32_intBytes n hn r hnd, PR.bind]
   | last n =>
-    have hn : -2147483647 ≤ n ∧ n ≤ 2147483647 := by simpa [goodIndex] using hx
+    have hn : -2147483648 ≤ n ∧ n ≤ 2147483647 := by
+      have : inI32 n := by simpa [goodIndex] using hx
+      exact this
     by_cases hpos : n > 0
     · have e : printIndex (.last n) ++ r = 108 :: 97 :: 115 :: 116 :: 43 :: (intBytes n ++ r) := by
         simp [printIndex, hpos]
@@ -548,9 +560,11 @@ theorem index_print (x : Index) (hx : goodIndex x = true) (r : Bytes) (hr : idxE
         obtain ⟨b, t, hbt, hsp, _⟩ := intBytes_head (n.natAbs : Int)
         have hds : dropSpaces (intBytes (n.natAbs : Int) ++ r) = intBytes (n.natAbs : Int) ++ r := by
           rw [hbt]; exact dropSpaces_nonspace _ _ hsp
-        have hi := i32_intBytes (n.natAbs : Int) ⟨by omega, by omega⟩ r hnd
-        have hsat : saturatingNeg (n.natAbs : Int) = n := by
-          unfold saturatingNeg; rw [if_neg (by omega)]; omega
+        have hi := i64_intBytes (n.natAbs : Int) ⟨by omega, by omega⟩ r hnd
+        have hsat : lastMinus (n.natAbs : Int) = .last n := by
+          unfold lastMinus saturatingNeg64 clampI32
+          rw [if_neg (by omega), if_neg (by omega), if_neg (by omega)]
+          congr 1; omega
         simp [index, alt, map, preceded, tuple4, i32_l, tagNoCase_last, ws_eq, dropSpaces, isSpace,
           char, hds, hi, hsat, PR.bind]
       · have h0 : n = 0 := by omega
@@ -894,9 +908,10 @@ theorem parseJsonPath_print (steps : List Path) (hs : steps.all goodStep = true)
   simp [jsonPath, delimited, ws_eq, dropSpaces, isSpace, predicateOrPaths, alt, hpred, hpaths,
     PR.bind, finish]
 
-/-- an example: `$.store.book[0, 1 to last-1, last+2].*[*].测` -/
+/-- an example: `$.store.book[0, 1 to last-1, last+2, last-2147483648 to -2147483648].*[*].测` -/
 example : [Path.dotField [115, 116, 111, 114, 101], .dotField [98, 111, 111, 107],
-    .arrayIndices [.index (.index 0), .slice (.index 1) (.last (-1)), .index (.last 2)],
+    .arrayIndices [.index (.index 0), .slice (.index 1) (.last (-1)), .index (.last 2),
+      .slice (.last (-2147483648)) (.index (-2147483648))],
     .dotWildcard, .bracketWildcard, .dotField [0xE6, 0xB5, 0x8B]].all goodStep = true := by
   decide
 
@@ -916,5 +931,3 @@ theorem parseJsonPath_printJsonPath (fmtF64 : Nat → Bytes) (steps : List Path)
 
 end Jsonb
 
-#print axioms Jsonb.parseKeyPaths_printKeyPaths
-#print axioms Jsonb.parseJsonPath_printJsonPath
